@@ -85,7 +85,7 @@ Handle(e) ==
                       THEN tin' = [tin EXCEPT ![e.fd].pk = Append(@, e)] /\ UNCHANGED avars /\ Acc ELSE Skip
     [] e.e = "cbb" -> HCbb(e)
     [] e.e = "srv" -> HSrv(e)
-    [] e.e = "crash" -> Stop
+    [] e.e = "crash" -> Rej("c05.crash." \o e.sum)     \* a sanitizer report or abnormal end inside a history of this family
     [] OTHER -> Skip
 
 Verdict == [verdict |-> IF bad /\ why.label # "" THEN "REJ" ELSE "ACC", id |-> hid, line |-> why.line, label |-> why.label]
